@@ -58,10 +58,9 @@ func (h *Handler6) findOrCreateRouter(mac net.HardwareAddr, ip netip.Addr) (rout
 
 func (h *Handler6) FindRouter(ip netip.Addr) Router {
 	h.Mutex.Lock()
-	r := h.LANRouters[ip]
-	h.Mutex.Unlock()
-	if r != nil {
-		return *r
+	defer h.Mutex.Unlock()
+	if r := h.LANRouters[ip]; r != nil {
+		return *r // copy with the lock held: the packet loop updates the entry
 	}
 	return Router{}
 }
